@@ -385,8 +385,10 @@ def check(prop: str, tier: str) -> int:
         "wall_s": round(wall, 2),
         "violations": len(seen_classes),
     }
-    os.makedirs(os.path.join(VERIF, "evidence"), exist_ok=True)
-    evpath = os.path.join(VERIF, "evidence", prop + ".json")
+    # VERIF_EVIDENCE_DIR: for self-test runs against patched worktrees, so that they do not overwrite the evidence of /repo
+    evdir = os.environ.get("VERIF_EVIDENCE_DIR") or os.path.join(VERIF, "evidence")
+    os.makedirs(evdir, exist_ok=True)
+    evpath = os.path.join(evdir, prop + ".json")
     tmp = evpath + ".tmp"
     with open(tmp, "w") as f:
         json.dump(ev, f, indent=1, sort_keys=True)
